@@ -114,11 +114,11 @@ func (e *env) dbPath(c *caseCtx, choices []colChoice) {
 	e.st.takeCaptured()
 	var ierr error
 	if pn := safely(func() { _, ierr = e.db.InsertRow(ctx, c.x.Interface()) }); pn != nil {
-		c.run.Violation(c.i, "", c.wit(map[string]interface{}{"what": "InsertRow panicked", "panic": fmt.Sprint(pn)}))
+		c.violate("", c.wit(map[string]interface{}{"what": "InsertRow panicked", "panic": fmt.Sprint(pn)}))
 		return
 	}
 	if ierr != nil {
-		c.run.Violation(c.i, "", c.wit(map[string]interface{}{"what": "InsertRow failed (database/sql rejected a column value)", "err": ierr.Error()}))
+		c.violate("", c.wit(map[string]interface{}{"what": "InsertRow failed (database/sql rejected a column value)", "err": ierr.Error()}))
 		return
 	}
 	cap := e.st.takeCaptured()
@@ -243,7 +243,7 @@ func (e *env) binlogPath(c *caseCtx, choices []colChoice) {
 		return
 	}
 	if d := depErr.Load(); d != nil {
-		c.run.Violation(c.i, "", c.wit(map[string]interface{}{"what": "AddDependency rejected a filter made from a decoded row", "err": d}))
+		c.violate("", c.wit(map[string]interface{}{"what": "AddDependency rejected a filter made from a decoded row", "err": d}))
 		return
 	}
 	errsBefore := atomic.LoadInt64(&e.log.n)
@@ -263,12 +263,12 @@ func (e *env) binlogPath(c *caseCtx, choices []colChoice) {
 	switch {
 	case atomic.LoadInt64(&e.log.n) > errsBefore:
 		msg := e.log.last()
-		c.run.Violation(c.i, classifyBinlogError(c, msg), c.wit(map[string]interface{}{"what": "binlog path: the poll loop failed to decode a row in the form the binlog produces", "event": et.String(),
+		c.violate(classifyBinlogError(c, msg), c.wit(map[string]interface{}{"what": "binlog path: the poll loop failed to decode a row in the form the binlog produces", "event": et.String(),
 			"binlog_row": srcRow, "choices": fmt.Sprint(choices), "logged": vlib.Trunc(msg, 500)}))
 	case o == vlib.Reached:
 		c.run.Count("binlog_e2e_matched", 1)
 	case o == vlib.QuiescentNot:
-		c.run.Violation(c.i, "", c.wit(map[string]interface{}{"what": "binlog path: the decoded row did not match a dependency made of the row's own column values (no invalidation at quiescence)", "event": et.String(),
+		c.violate("", c.wit(map[string]interface{}{"what": "binlog path: the decoded row did not match a dependency made of the row's own column values (no invalidation at quiescence)", "event": et.String(),
 			"binlog_row": srcRow, "choices": fmt.Sprint(choices)}))
 	default:
 		c.run.Inconclusive(fmt.Sprintf("case %d: binlog path undecided", c.i))
